@@ -945,3 +945,30 @@ pub fn generate(seed: u64, plan: Option<Plan>, budget: usize) -> Generated {
     g.line(0, "}");
     Generated { text: g.out, safe_points: g.safe_points, injected: g.injected, shapes: g.shapes }
 }
+
+/// A violation (or, kind 0, a benign body) as a function body over the crate prelude, to be
+/// placed in every kind of function body the compiler lowers (place.rs).
+pub struct Snip { pub prelude: String, pub params: String, pub body: String, pub inject: Option<Inject> }
+pub fn snippet(seed: u64, kind: u8) -> Snip {
+    let mut g = Gen::scratch(seed);
+    let prelude = crate_prelude(&mut g);
+    g.irng = Rng(seed.wrapping_mul(0x51ab) ^ kind as u64);
+    match kind {
+        3 => {
+            let t = gas_violation(&mut g);
+            let open = t.find('(').unwrap();
+            let sig_end = t.find(") -> felt252 {").unwrap();
+            let close = t.rfind('}').unwrap();
+            Snip { prelude, params: t[open + 1..sig_end].to_string(), body: t[sig_end + ") -> felt252 {".len()..close].to_string(), inject: g.injected }
+        }
+        _ => {
+            g.out.clear();
+            g.line(1, "let mut acc = a;");
+            let head = g.out.clone();
+            g.out.clear();
+            if kind == 1 { g.inject_uam(1); } else if kind == 2 { g.inject_md(1); } else { g.line(1, "acc = mix(acc, peek_d(@D { a: 1, b: 2 }));"); }
+            // head / tail are kept apart so that a loop can be put around the snippet
+            Snip { prelude, params: "a: felt252".to_string(), body: format!("{head}//SNIP\n{}//SNIP\n    acc\n", g.out), inject: g.injected }
+        }
+    }
+}
